@@ -212,3 +212,23 @@ reg(
                 "construction- and process-dependence only shows when the same comparison is repeated on rebuilt values, which no unit test does."),
     level_note="The pool is finite; laws are checked on its pairs only.",
 )
+
+reg(
+    "C14",
+    title="array filters neither invent nor lose elements",
+    level="exploration",
+    technique="runtime monitoring: reference functions and multiset/sortedness/stability monitors over filter results read structurally through the dump plugin; bounded-exhaustive small arrays plus random arrays beyond the 20-element sort threshold in every initial order",
+    design_ref="DESIGN.md §5 C14",
+    rule=("a case = (input array, filter battery). Exhaustive: all arrays of length 0..L (quick 4, thorough 5) over {nil, 1, 1.0, 2, 1.5, 'a', 'B', 'b'} and over case-variant "
+          "strings; all arrays of length 0..3 (thorough 4) over 8 one-/two-key objects with a present, missing, nil or false property, for property names present/absent; "
+          "slice with every offset in [-n-2, n+1] x lengths; random arrays of length 0..60 (half of them longer than 20) of five kinds (ints, numbers, strings, ints with nils, "
+          "mixed incomparable types) in random, sorted, reversed and organ-pipe order. distinct = distinct input array (and slice arguments); non-trivial = the array has at least 2 elements."),
+    profiles={"quick": ["checked"], "thorough": ["checked"]},
+    floor={"quick": 15000, "thorough": 300000},
+    assumptions=["equality for uniq/where is asserted only on cells whose meaning the statements fix (numbers, strings, nil)",
+                 "for arrays whose elements are not mutually comparable only 'permutation' and 'no failure' are asserted for sort",
+                 "map may keep or drop a property that is present but nil; [] | first may be nil or an error"],
+    level_text=("Reference implementations and structural laws across bounded-exhaustive and random inputs, including lengths beyond the threshold where the standard sort "
+                "switches algorithm. Right level: failures depend on length and initial order, which unit tests sample with a few short arrays."),
+    level_note="The reference functions (stable sort with nils last, first-occurrence dedup, indexing) are trusted.",
+)
